@@ -800,6 +800,18 @@ class Generator:
         first = self.need_qc(ex, n, False) if "compress" in op else self.need_stab(ex, n, pre, False)
         return pre + [self._call(op, [first, self.lit(conn)])]
 
+    def gen_consumers(self, ex, sid, k=3):
+        """up to k DIFFERENT questions to one object"""
+        out, seen = [], set()
+        for _ in range(4 * k):
+            st = self.gen_consumer(ex, sid)
+            if st and st[-1]["op"] not in seen:
+                seen.add(st[-1]["op"])
+                out += st
+            if len(seen) >= k:
+                break
+        return out
+
     def gen_consumer(self, ex, sid):
         """Feed the (possibly mutated) object back into the library."""
         r = self.rng
@@ -920,7 +932,7 @@ class Generator:
             out = []
             for A in call.get("args", [])[:2]:
                 if "ref" in A and not A.get("path") and A["ref"] in ex2.meta:
-                    out += self.gen_consumer(ex2, A["ref"])
+                    out += self.gen_consumers(ex2, A["ref"], 2)
             return out
         return after
 
@@ -959,7 +971,18 @@ class Generator:
             hit = [st for st in steps if st["kind"] == "call" and st["op"] == opname]
             if hit:
                 self.script_note = "reached"
-                return steps + [self._after_call(hit[-1]), self._after_call(hit[-1])]
+                call = hit[-1]
+                k = steps.index(call)
+
+                def pre_queries(ex2, call=call):
+                    # question every live object the call is about to receive BEFORE the call as well:
+                    # query / op / query on ONE object is what a stale private memo needs in order to show
+                    out = []
+                    for A in call.get("args", [])[:2]:
+                        if "ref" in A and not A.get("path") and A["ref"] in ex2.meta:
+                            out += self.gen_consumers(ex2, A["ref"], 3)
+                    return out
+                return steps[:k] + [pre_queries] + steps[k:] + [self._after_call(call), self._after_call(call)]
             self.script_note = "unreachable"
             return []
         self.queue.append(target)
